@@ -55,16 +55,21 @@ variable {K : Type}
 
 def dhAttr (F : NumFmt K) (a : Attr) (x : K) : Attrs := if F.isZero x then [] else [(a, F.fmt x)]
 
-/-- `export_xml`, StandPoint branch, one observation; `cf` = `cluster->station.str()` -/
-def exportObs (F : NumFmt K) (ext : Bool) (cf : String) (o : Obs K) : Elem × Attrs :=
+/-- `export_xml`, StandPoint branch, one observation; `cf` = `cluster->station.str()`; `sval` = `info.str_val`, the text
+    DisplayObservationVisitor made of the value (`to_xmlstr`, or `gon2deg` for an angular value when degrees are set) -/
+def exportObsV (F : NumFmt K) (ext : Bool) (cf : String) (o : Obs K) (sval : String) : Elem × Attrs :=
   (o.kind.elem,
    (if o.from_ ≠ "" ∧ cf ≠ o.from_ then [(Attr.from_, o.from_)] else []) ++
    (if o.kind = .angle then
       [(Attr.bs, o.to), (Attr.fs, o.fs)] ++ dhAttr F .from_dh o.fromDh ++ dhAttr F .bs_dh o.toDh ++ dhAttr F .fs_dh o.fsDh
     else
       [(Attr.to, o.to)] ++ dhAttr F .from_dh o.fromDh ++ dhAttr F .to_dh o.toDh) ++
-   [(Attr.val, F.fmt o.val), (Attr.stdev, F.fmt o.stdev)] ++
+   [(Attr.val, sval), (Attr.stdev, F.fmt o.stdev)] ++
    (if ext ∧ o.extern ≠ "" then [(Attr.extern, o.extern)] else []))
+
+/-- … with the value written by `to_xmlstr` (gons) -/
+def exportObs (F : NumFmt K) (ext : Bool) (cf : String) (o : Obs K) : Elem × Attrs :=
+  exportObsV F ext cf o (F.fmt o.val)
 
 inductive Err where
   | undefinedAttribute | missingStandpoint | missingTarget | missingSecondTarget | missingValue | badNumber
@@ -81,8 +86,10 @@ def rdOr (F : NumFmt K) (s : Option String) (dflt : K) : Except Err K :=
     | none => .error .badNumber
 
 /-- `process_distance/direction/angle/sdistance/zangle/azimuth`; `cf` = `standpoint_id`,
-    `cdh` = `obs_from_dh`, `impl` = the implicit standard deviation of the kind -/
-def parseObs (F : NumFmt K) (cf : String) (cdh impl : K) (k : Kind) (as : Attrs) : Except Err (Obs K) := do
+    `cdh` = `obs_from_dh`, `impl` = the implicit standard deviation of the kind; `rdVal` = how the string of the value
+    becomes a number (`toDouble`; for the angular kinds `deg2gon` first, see Model/ExportNet.lean) -/
+def parseObsV (F : NumFmt K) (rdVal : String → Option K) (cf : String) (cdh impl : K) (k : Kind) (as : Attrs) :
+    Except Err (Obs K) := do
   let e := k.elem
   if as.any (fun a => (route e a.1).isNone) then throw .undefinedAttribute
   let from_ := (reach e (.ctor 0) as).getD cf
@@ -94,7 +101,7 @@ def parseObs (F : NumFmt K) (cf : String) (cdh impl : K) (k : Kind) (as : Attrs)
   if k = .angle ∧ fs = "" then throw .missingSecondTarget
   let val ← match sval with
     | none => throw .missingValue
-    | some t => match F.rd t with
+    | some t => match rdVal t with
       | some x => pure x
       | none => throw .badNumber
   let stdev ← rdOr F (reach e .sigma as) impl
@@ -102,6 +109,10 @@ def parseObs (F : NumFmt K) (cf : String) (cdh impl : K) (k : Kind) (as : Attrs)
   let toDh ← rdOr F (reach e .setToDh as) F.zero
   let fsDh ← if k = .angle then rdOr F (reach e .setFsDh as) F.zero else pure F.zero
   pure ⟨k, from_, to, fs, val, stdev, fromDh, toDh, fsDh, (reach e .setExtern as).getD ""⟩
+
+/-- … the value read by `toDouble` -/
+def parseObs (F : NumFmt K) (cf : String) (cdh impl : K) (k : Kind) (as : Attrs) : Except Err (Obs K) :=
+  parseObsV F F.rd cf cdh impl k as
 
 /-- invariants of an observation held by a network that came out of the parser -/
 structure Obs.WF (F : NumFmt K) (o : Obs K) : Prop where
